@@ -110,6 +110,7 @@ class AnalysisInvariance(DesignPart):
         lib, fn, text = D['files'][0]; fname = '/p/' + fn
         toks, sites = self.sites(D)
         base = self.bases(chk)[D['name']]
+        if isinstance(base, tuple): raise Violation('parsing or analysis of the design panics: ' + base[1], 'panic')
         A = [kit.diag_obs(d) for d in base.diagnostics]
         k = sites[choose(ctx, inp, 'site', len(sites))]
         s, e, _ = toks[k]
